@@ -7,12 +7,14 @@
    explicit error values.  Inputs of `get_reg_changes`, as everywhere in the dependency models:
      * whether the line has a mnemonic,
      * dest_reg_names: prefix+name of the RegisterOperands among semantic_operands destination + src_dst, in order,
+     * the full-width names parser.get_full_width_reg_name gives for those destination registers (non-None ones, in order),
      * the parsed operands (register full name / immediate value / memory operand with base, offset, write-back / other),
      * the ISA entry the (suffix-stripping) look-up selected, or None: per-operand `destination` flags and the operation.
    Output: the returned dict in insertion order (register -> None | operand state), or the exception raised.
    Modelled as of /repo 25d1345: a register that is source and destination takes the state of the written operand
    (0bfe782); the base of a post-indexed operand is reported unchanged in the full dict ("op_post") and bumped in the
-   only_postindexed dict; post-index by a register is an unknown change (b9d426a).
+   only_postindexed dict; post-index by a register is an unknown change (b9d426a); a written sub-register makes the
+   full-width register unknown (patches/C06-fix-subregister-write-unknown.diff; with fulls = [] this is the behaviour before).
    No proofs in this file. *)
 From Coq Require Import ZArith List Bool String.
 From OV Require Import Model.Num Model.Pressure Model.Deps.
@@ -203,7 +205,8 @@ Fixpoint dedup (seen : list string) (l : list string) : list string :=
 Definition change_dict (dests : list string) (nm : names) (st : opstate) : rc_dict :=
   map (fun reg => (reg, match nm_get nm reg with Some k => st_get st k | None => None end)) (dedup [] dests).
 
-Definition get_reg_changes (has_mnem : bool) (dests : list string) (ops : list iop) (isa : option rc_entry)
+(* everything except the sub-register rule at the end *)
+Definition get_reg_changes_core (has_mnem : bool) (dests : list string) (ops : list iop) (isa : option rc_entry)
            (only_postindexed : bool) : rc_result :=
   if negb has_mnem then RcOk []
   else if only_postindexed then
@@ -231,6 +234,25 @@ Definition get_reg_changes (has_mnem : bool) (dests : list string) (ops : list i
       | Ok (nm, st) => RcOk (change_dict dests nm st)
       end
     end.
+
+(* for op in dest_regs: full = parser.get_full_width_reg_name(op); if full is not None: change_dict[full] = None
+   A write to a narrower part of a general purpose register (eax, ax, al, r8d, w1) changes the full-width register
+   (rax, r8, x1) beyond reconstruction.  `fulls` = the non-None results of get_full_width_reg_name over the destination
+   registers, in order (an input, like the register alias test of Model/Deps.v; tied by harness/regchg.py).
+   Python dict assignment: an existing key keeps its position, a new key is appended. *)
+Fixpoint set_none (d : rc_dict) (k : string) : rc_dict :=
+  match d with
+  | [] => [(k, None)]
+  | (k', v) :: r => if String.eqb k k' then (k', None) :: r else (k', v) :: set_none r k
+  end.
+Definition widen (fulls : list string) (d : rc_dict) : rc_dict := fold_left set_none fulls d.
+
+Definition get_reg_changes (has_mnem : bool) (dests fulls : list string) (ops : list iop) (isa : option rc_entry)
+           (only_postindexed : bool) : rc_result :=
+  match get_reg_changes_core has_mnem dests ops isa only_postindexed with
+  | RcOk d => RcOk (if andb has_mnem (negb only_postindexed) then widen fulls d else d)
+  | RcErr e => RcErr e
+  end.
 
 (* dest_reg_names from the semantic operand sets of Model/Deps.v / Model/Roles.v *)
 Definition dest_reg_names (sem : list opnd * list opnd * list opnd) : list string :=
